@@ -3,6 +3,8 @@ CONSTANTS
   Kinds = {"cond"}
   MaxSteps = 4
   CondOnNewState = TRUE
+  ScanRev = {FALSE, TRUE}
+  ScanHx = {TRUE, FALSE}
 SPECIFICATION Spec
 INVARIANT Agree
 INVARIANT FinalAgree
